@@ -109,6 +109,10 @@ func c11Ops() []concOp {
 			return digestFrame(q.Filter(qframe.Or(qframe.Filter{Column: "i", Comparator: func(x int) bool { y(); return x > 2 }},
 				qframe.Not(qframe.And(qframe.Filter{Column: "s", Comparator: func(s *string) bool { y(); return s != nil }})))))
 		}},
+		{"Filter(And(Null, fn int, fn int))", true, func(q qframe.QFrame, y func()) string {
+			return digestFrame(q.Filter(qframe.And(qframe.Null(), qframe.Filter{Column: "i", Comparator: func(x int) bool { y(); return x > 1 }},
+				qframe.Filter{Column: "k", Comparator: func(x int) bool { y(); return x == 1 }})))
+		}},
 		{"Apply(fn0)", true, func(q qframe.QFrame, y func()) string {
 			return digestFrame(q.Apply(qframe.Instruction{Fn: func() int { y(); return 4 }, DstCol: "n"}))
 		}},
@@ -761,8 +765,8 @@ func init() {
 		},
 		Level: "model_checking",
 		Rule: "(a) controlled cooperative scheduler: logical threads each run one operation on the same frame or on a frame sharing storage with it (slice, sorted copy, column copy); scheduling points are operation start, operation end and EVERY user callback invocation (filter predicate, apply fn0/fn1/fn2, aggregation function, eval function; the callback yields before it reads its arguments). " +
-			"All interleavings (no preemption bound) for every unordered pair and self-pair of 13 callback-bearing operations x 5 sharing relations (same frame, slice, sorted copy, column copy, both on one frame that was itself derived by adding columns) and for each callback operation against each of 31 callback-free operations; three threads with preemption bound 2 (thorough 3). Oracle: every operation returns what it returns alone, the shared frame is unchanged, no panic; replay of a choice prefix must find the recorded number of enabled threads. states = schedules executed, transitions = scheduling points. " +
-			"(b) free-running pass in a -race build: every unordered pair and self-pair of all 44 operations (five of them using argument values shared between the calls, two on a shared 40000-row frame) x 5 relations released together by a barrier, one fresh process per pair (relations in rotated order, no sequential run before the racing one: process-wide and per-frame lazily built state is cold), 3 (10) repetitions, results compared with the sequential ones computed afterwards on equal frames; a race report is attributed by stderr markers and re-run 5 times in fresh processes before it is believed. Non-trivial = distinct (operation tuple, relation) explored by the scheduler.",
+			"All interleavings (no preemption bound) for every unordered pair and self-pair of 14 callback-bearing operations x 5 sharing relations (same frame, slice, sorted copy, column copy, both on one frame that was itself derived by adding columns) and for each callback operation against each of 31 callback-free operations; three threads with preemption bound 2 (thorough 3). Oracle: every operation returns what it returns alone, the shared frame is unchanged, no panic; replay of a choice prefix must find the recorded number of enabled threads. states = schedules executed, transitions = scheduling points. " +
+			"(b) free-running pass in a -race build: every unordered pair and self-pair of all 45 operations (five of them using argument values shared between the calls, two on a shared 40000-row frame) x 5 relations released together by a barrier, one fresh process per pair (relations in rotated order, no sequential run before the racing one: process-wide and per-frame lazily built state is cold), 3 (10) repetitions, results compared with the sequential ones computed afterwards on equal frames; a race report is attributed by stderr markers and re-run 5 times in fresh processes before it is believed. Non-trivial = distinct (operation tuple, relation) explored by the scheduler.",
 		Assumptions: []string{
 			"qframe contains no synchronisation operation, so the scheduler can only regain control at operation boundaries and user callbacks; memory-access-level interleavings are covered by the race pass: two synchronisation-free operations forked from a barrier have no happens-before path between them in any schedule, so the Go race detector reports a conflicting access pair whichever schedule runs (limits: shadow memory keeps 4 accesses per word)",
 			"a data-race-free program is sequentially consistent (Go memory model); with no operation writing memory another reads, each returns its sequential result",
